@@ -87,7 +87,7 @@ def ty_of(tnode):
     raise Unsupported("type " + t)
 
 
-ENUM_TYPES = set()
+ENUM_TYPES = {"PseudoTcpState"}   # typedef enum with non-negative values: clang's underlying type is unsigned int
 
 
 def conv(src, dst, term):
@@ -677,6 +677,9 @@ KERNELS = [
     ("agent/pseudotcp.c", "time_is_between"),
     ("agent/pseudotcp.c", "time_diff"),
     ("agent/pseudotcp.c", "bound"),
+    ("agent/pseudotcp.c", "pseudo_tcp_state_has_sent_fin"),
+    ("agent/pseudotcp.c", "pseudo_tcp_state_has_received_fin"),
+    ("agent/pseudotcp.c", "pseudo_tcp_state_has_received_fin_ack"),
 ]
 
 # (include, [names]) : printed as unsigned long long by a compiled stub
@@ -941,6 +944,11 @@ FIELD_KERNELS = [
      [("message", "guint"), ("buffer", "guint"), ("offset", "gsize")], [], "iter_n_valid_messages", "guint"),
     ("agent/agent.c", "nice_input_message_iter_is_at_end", "iter",
      [("message", "guint"), ("buffer", "guint"), ("offset", "gsize")], [("n_messages", "guint")], "iter_is_at_end", "gboolean"),
+    # pseudo-TCP ring accounting: how much is buffered / how much room is left (the quantities every window computation starts from)
+    ("agent/pseudotcp.c", "pseudo_tcp_fifo_get_buffered", "b",
+     [("data_length", "gsize")], [], "fifo_get_buffered", "gsize"),
+    ("agent/pseudotcp.c", "pseudo_tcp_fifo_get_write_remaining", "b",
+     [("buffer_length", "gsize"), ("data_length", "gsize")], [], "fifo_get_write_remaining", "gsize"),
 ]
 
 
